@@ -101,6 +101,25 @@ def fallTable (labels : List String) (statsList : List (Stats V)) : Except Strin
             ({ group := row.group, vial := row.vial, var := mv.1, value := mv.2.2, seed := si.2 } : FallRow V))
           f0 (meltPlain si.1))
 
+/-- the Snowfall object as far as the table is concerned: the stats of the run it
+currently holds and the cached table `stats_df` (`none`: empty frame) -/
+structure Fall (V : Type) where
+  statsList : List (Stats V)
+  cache : Option (List (FallRow V))
+
+/-- `Snowfall.run()`: new stats; the cached table is dropped -/
+def Fall.run (_f : Fall V) (newStats : List (Stats V)) : Fall V :=
+  { statsList := newStats, cache := none }
+
+/-- `Snowfall.to_frame()`: built from the current stats unless a table is cached -/
+def Fall.toFrame (labels : List String) (f : Fall V) : Except String (List (FallRow V)) × Fall V :=
+  match f.cache with
+  | some t => (.ok t, f)
+  | none =>
+    match fallTable labels f.statsList with
+    | .ok t => (.ok t, { f with cache := some t })
+    | .error e => (.error e, f)
+
 /-- the `what` argument of `_returnStats` -/
 def whatVariable (what : String) : Option String :=
   if what = "tnuc" then some "t_nucleation"
